@@ -2,6 +2,7 @@ import ExprModel.Props.C13Pipeline
 import ExprModel.Proofs.OptLocs
 import ExprModel.Proofs.PatchLocs
 import ExprModel.Proofs.CheckerLocs
+import ExprModel.Proofs.CheckerErrLocs
 import ExprModel.Proofs.PatchOps
 /-
 C13, locations through the optimizer (closes the gap named in DESIGN.md section 12: "no theorem carries
@@ -196,5 +197,65 @@ theorem typed_optimize_error_in_source (F : Api.Front) (T : Api.TypedCfg) (w : W
   have hn2 := patch_operators_keeps_locations P T.opTable T.tyOf n1 n2 hn1 h2
   have hck := check_keeps_locations P T.check n2 checked t3 hn2 h3
   exact optimize_error_located P (Or.inr rfl) T.optFlags T.constFns w checked l hck hopt
+
+/-! ### compile-time type errors -/
+
+/-- **`check_error_located`**: a located error of `checker.Check` is at the location of a node of the tree it was
+    given — the node at hand, a visited operand, a call argument, a slice bound, the condition of a conditional, a map
+    key (all 22 node kinds, the argument loop, every checker configuration).  The one unlocated checker error is the
+    `expected …` error of the result directive (`loc = none`). -/
+theorem check_error_located (P : Loc → Prop) (cfg : CheckCfg) (n n' : Node) (l : Loc) (c : CheckErrClass)
+    (hn : n.AllLoc P) (h : check cfg n = .error (some l) c n') : P l :=
+  CheckerLocs.check_error_located cfg n n' l c hn h
+
+/-- non-vacuity, and the rule at work: `1 + "a"` (tokens at 1:0, 1:2, 1:4) is rejected at 1:2, the `+` -/
+example : ∃ c n', check C01.exT.check
+    (.binary (C01.mkAt 1 2) "+" (.int (C01.mkAt 1 0) 1) (.str (C01.mkAt 1 4) "a")) = .error (some ⟨1, 2⟩) c n' :=
+  ⟨_, _, rfl⟩
+
+/-- **`typed_check_error_in_source`**: in the model of `expr.Compile(src, Env(…), Operator(…))`, a type error the
+    compilation stops with — raised by the first check, or by the second check on the tree after `PatchOperators` —
+    is located inside the source, at the first rune of the defining token of a node of the parsed tree (no 0:0 escape
+    here: nothing before the optimizer creates unlocated nodes). -/
+theorem typed_check_error_in_source (F : Api.Front) (T : Api.TypedCfg) (w : World) (src : String) (l : Loc)
+    (c : CheckErrClass) (htab : F.tables = LexTables.std) (hnl : F.cc.isSpace '\n' = true) (hw : T.walkTbl = refSlots)
+    (h : Api.compileSource F T w src = .checkError (some l) c) :
+    ∃ ch, F.cc.isSpace ch = false ∧ PointsAt src.toList l ch := by
+  let P : Loc → Prop := fun l => ∃ ch, F.cc.isSpace ch = false ∧ PointsAt src.toList l ch
+  unfold Api.compileSource at h
+  split at h
+  · split at h
+    · cases h
+    · rename_i ts hl
+      split at h
+      · cases h
+      · rename_i n hp
+        rw [htab] at hl
+        have hn : n.AllLoc P := node_locations_in_source F.cc hnl F.pcfg src ts n hl hp
+        unfold Api.middle at h
+        split at h
+        · rename_i loc c' n' h1
+          simp only [Api.CompileOut.checkError.injEq] at h
+          rw [h.1, h.2] at h1
+          exact check_error_located P T.check n n' l c hn h1
+        · cases h
+        · rename_i n1 t1 h1
+          have hn1 := check_keeps_locations P T.check n n1 t1 hn h1
+          split at h
+          · cases h
+          · rename_i n2 h2
+            rw [hw] at h2
+            have hn2 := patch_operators_keeps_locations P T.opTable T.tyOf n1 n2 hn1 h2
+            split at h
+            · rename_i loc c' n' h3
+              simp only [Api.CompileOut.checkError.injEq] at h
+              rw [h.1, h.2] at h3
+              exact check_error_located P T.check n2 n' l c hn2 h3
+            · cases h
+            · dsimp only at h
+              split at h
+              · cases h
+              · split at h <;> cases h
+  · cases h
 
 end ExprModel.C13
